@@ -95,7 +95,7 @@ def split_top(s, sep=","):
 
 
 HDR_FN = re.compile(r"^fn ([^(]+)\((.*)\) -> (.+) \{$")
-HDR_CONST = re.compile(r"^(?:const|static(?: mut)?) (.+?): (.+) = \{$")
+HDR_CONST = re.compile(r"^(?:const|static(?: mut)?) (.+): (.+?) = \{$")
 
 
 def parse_dump(text):
@@ -110,7 +110,7 @@ def parse_dump(text):
             skip_next_ctfe = True
             i += 1
             continue
-        ms = re.match(r"^(?:const|static(?: mut)?) (.+?): (.+?) = const (.+);$", l)
+        ms = re.match(r"^(?:const|static(?: mut)?) (.+): (.+?) = const (.+);$", l)
         if ms:
             consts[ms.group(1).strip()] = ms.group(3).strip()
             skip_next_ctfe = False
